@@ -1,12 +1,15 @@
 //! Family binary: gossipsub behaviour-level properties (C27, C28, C29, C35) on the GsNode seam.
+mod c27;
 mod c28;
 mod c29;
+mod c35;
 mod explore;
+mod fresh;
 mod meshrun;
 mod meshsys;
 mod node;
 
 fn main() {
-    mc::main_dispatch(&[("C28", c28::run, c28::META), ("C29", c29::run, c29::META)]);
+    mc::main_dispatch(&[("C27", c27::run, c27::META), ("C28", c28::run, c28::META), ("C29", c29::run, c29::META), ("C35", c35::run, c35::META)]);
 }
 
